@@ -101,3 +101,8 @@ def run(rep, program: Program, tier: str) -> None:
     from . import c05
 
     rep.isolate(c05.rule_r1, rep, program, prop=PROP, rule="R5")
+    # the force of a kick must be the gradient of the system's own h1 at every evaluation: a derivative method that
+    # accumulates into a cached array returns a different force from its second call on (shared with C09-R9)
+    from . import c09
+
+    rep.isolate(c09.rule_r9, rep, program, prop=PROP, rule="R6")
